@@ -42,8 +42,9 @@ CHECKS = {
          "For ~600 generated designs (access-shape products over Bits/struct/nested/list carriers, hierarchy placements, nets, registers) every one of the five "
          "scheduling pass groups, every linear extension of the constraint DAG (cap 60/720) times every flip-flop order, and every schedule SimpleSchedulePass can "
          "emit are run over all input vectors / sequences; ALL signals are compared with the reference after each eval and tick, and the fixed point is re-checked. "
-         "~95 hand-written statement-family designs (vt/stmtfam.py, incl. reads inside index expressions / keyword arguments / call results, names resolved in the wrong scope, "
-         "fields named like Signal methods, loop-variable aliases, flip-flop writes the DSL must understand or refuse) run under the same groups, the real PassGroups classes and every "
+         "~125 hand-written statement-family designs (vt/stmtfam.py, incl. reads inside index expressions / keyword arguments / call results, names resolved in the wrong scope, "
+         "fields named like Signal methods, every way of giving a part of the component a local name (loop variables, plain / tuple / conditional / annotated assignments, zip, "
+         "comprehensions, variables captured from construct()), second names of parts of signals, flip-flop writes the DSL must understand or refuse) run under the same groups, the real PassGroups classes and every "
          "SimpleSchedulePass schedule against their reference functions, with the fixed point asserted after ONE combinational evaluation.",
          "Trusted: vt/irref.py (reference evaluator, self-checked by reverse-order settle) and the generators' legality. Bounds: widths <= 4, <= 7 blocks, sequence length 2 (3).",
          "DESIGN.md 6.C01", "E1 E2"),
@@ -55,8 +56,9 @@ CHECKS = {
          "OpenLoopCLPass: every sequence of <= 4 (5) top-level method calls on 7 designs (push/pull around update blocks, the three CL queues with capacity 1 and 2): blocks, guards and "
          "methods run at most once per cycle in constraint order, a call is not pushed into the next cycle when the partial order forces it into the current one, and the returned values "
          "equal a model that replays the executed order; the pass's vertex shuffle is owned by the harness (all 8 tie-breaks for sequences of length <= 3); designs with an iterated group of blocks "
-         "and with a top-level callee connected to a child method. Hand-written CL / FL designs (also update_once without method ports, a method called through a function, a WR constraint on a "
-         "connected port) run under Default, Simple, Unroll, HeuTopoUnrollSim and Mamba2020.",
+         "with a top-level callee connected to a child method (directly and through a chain of method constraints), with a block that makes a blocking call (WrapGreenletPass applied as in "
+         "AutoTickSimPass), and four cyclic designs the pass has to refuse. Hand-written CL / FL designs (also update_once without method ports, a method called through a function, WR / RD constraints on "
+         "connected ports and on fields of them, method constraints through M(x) == M(y) pass-throughs on both sides) run under Default, Simple, Unroll, HeuTopoUnrollSim and Mamba2020.",
          "Trusted: bit-level access analysis in vt/ir.py; net blocks are identified through genblk_writes. Variable indices are treated conservatively.",
          "DESIGN.md 6.C02", "E1 E2"),
  "C07": ("model_checking",
@@ -101,13 +103,14 @@ CHECKS = {
          "method ports, Bits/struct/struct-with-list/nested-struct/list-of-struct signals, lists of signals) is elaborated twice; update blocks, connections and post-elaboration "
          "accesses create field, list-field, slice, slice-of-slice and bit signals; for every object eval(repr(o)) is o, names are unique, parent/host/level/top-level-signal agree "
          "with the name, get_leaf_signals works, and both elaborations give the same name sets. The menus include second references to already placed objects (alias attribute, list of references), "
-         "lists that grow after they were assigned, and inverse interfaces.",
+         "lists that grow after they were assigned (+=, append, item assignment) or have holes, inverse and twice-inverted interfaces, interfaces with a port referenced twice, a component class "
+         "that inherits a method interface, and a struct field named like a method of signals; the local collection APIs must return objects of their component only.",
          "Trusted: the 10-line name splitter. Depth 2 only; set_param trees are not exercised.",
          "DESIGN.md 6.C14", "E1"),
  "C15": ("model_checking",
          "explicit-state exploration over histories of replace_component calls on a real elaborated design; differential oracle vs the from-scratch build (metadata, simulation) + object-graph reachability sweep",
          "Every history of length <= 2 (3) of replace_component / replace_component_with_obj over 5 positions (top child, list elements, grand-child, list element below a non-top parent) "
-         "and 9 classes (comb, ff, nested child + const + slice connection + U<U, RD/WR constraints, lambdas, slicing blocks, CL with update_once + M constraints, internal method net, a class without method ports) is applied; the parent / top hold constraints on blocks, method ports and non-blocking interfaces of the replaced objects, functions that read ports two levels down, update_ff writes into child ports and blocks looping over the child list; "
+         "and 9 classes (comb, ff, nested child + const + slice connection + U<U, RD/WR constraints, lambdas, slicing blocks, CL with update_once + M constraints, internal method net, a class without method ports) is applied; the parent / top hold constraints on blocks, method ports and non-blocking interfaces of the replaced objects, functions that read ports two levels down or loop over the child list, update_ff writes into child ports, blocks looping over the child list, constraints with a block of a child on the block side and second references to objects of the children; "
          "all queryable metadata is compared by name with the design built directly, both are simulated over all input sequences of length 2, and nothing of a removed subtree may be reachable from top.",
          "Trusted: the canonicalisation in meta() (names only). One hierarchy shape; add_value_port/add_connection APIs are not explored.",
          "DESIGN.md 6.C15", "E1"),
@@ -133,7 +136,8 @@ CHECKS = {
          "About 1100 designs: two writes to one carrier over all access-shape pairs (whole, overlapping/adjacent/contained slices, bits, fields, nested fields, list elements with constant and "
          "variable index, struct with list field) by the same block, two comb blocks, comb+ff, comb+lambda, block+net (from input, constant, driven wire), net+net, child/parent/grand-parent "
          "positions; undriven nets, connection loops, duplicate connections, overlapping slice nets; every port rule Type 1-9 and the loop-back rule with its legal counterpart, also seen from the component that makes the connection (grand-parent connecting two grand-children, parent driving an out port / a wire of its child); mismatching interfaces connected in both orders; every "
-         "assignment operator in update / update_ff on whole signals, list elements, slices, fields; writes reaching a signal through @s.func functions (two callers, nested calls, diamonds). elaborate() must raise the class the analysis predicts, or nothing. "
+         "assignment operator in update / update_ff on whole signals, list elements, slices, fields; writes reaching a signal through @s.func functions (two callers, nested calls, diamonds); ~60 hand-written cases for what the generator cannot express (signals written through local and captured names, "
+         "methods of signal values, Bits constants as indices, lambda text, Placeholder connect, a block named like a function). elaborate() must raise the class the analysis predicts, or nothing. "
          "Thorough adds ~760 three-writer designs (every multiset of three access shapes; three blocks / two in one block / one block / two blocks + a net) under all block orders and 6 hash permutations.",
          "Trusted: c09.analyze (per-bit driver sets, net source propagation, port-direction table). Designs with several simultaneous defects are not generated.",
          "DESIGN.md 6.C09", "E1 E2"),
@@ -155,7 +159,7 @@ CHECKS = {
          "bounded exhaustive enumeration of update blocks (expression trees x assignment forms + statement shapes) through the real RTLIR generation and per-block type check; probe-instrumented execution over all inputs; literal-width sweep",
          "About 74k (1.6M thorough) blocks `t = e` / `s.out_w @= e` (w in 1,4,8,9) for every expression of depth 1 over 21 leaves (ports, sized constants, literals, int and Bits free variables, "
          "struct field, list element, slice, variable bit index, explicit / implicit temporaries, loop variable) and depth 2 over representative leaves, plus loops with ascending / descending / "
-         "strided ranges and temporaries re-assigned under an if. Accepted blocks are executed with a probe around every typed sub-expression for 192 input combinations: static width == runtime "
+         "strided ranges, temporaries re-assigned under an if, conditionals between literals. Accepted blocks are executed with a probe around every typed sub-expression for 192 input combinations: static width == runtime "
          "width and no width error outside the statement's carve-outs. Literal widths are checked for 0..2^14 (2^20) and 2^k-1, 2^k, 2^k+1 up to k = 70.",
          "Trusted: the probe instrumentation and the attribution of a block to 'computes with implicit ints' / 'folded constant' (the two recorded systemic findings); blocks outside those classes "
          "are checked strictly.",
@@ -165,8 +169,8 @@ CHECKS = {
          "About 1200 designs -- all translatable members of the E2 families (access-shape products over Bits / struct / nested struct / list / struct-with-list carriers, hierarchy, nets, "
          "registers), ~5700 (more in thorough) typed expression / statement blocks (all operators, casts, zext/sext/trunc/concat/reduce, conditionals, variable indices, slices, fields, "
          "loops incl. descending / strided, temporaries), struct ports of five shapes moved by connections, 2-D interface arrays, interfaces holding port arrays, arrays of parameterised "
-         "sub-components, heterogeneous interface / component lists, nested interface arrays indexed by expressions, ~100 hand-written statement designs (vt/stmtfam.py) -- are translated by the real VerilogTranslationPass; the text is parsed and simulated for every input vector / sequence and every output port is compared each step; the declared width of every top-level port is compared with the PyMTL port. Nine designs are also translated after the same instance has been simulated: same text as a fresh instance, or refused.",
-         "Trusted base: vt/svparse.py + vt/svsim.py (IEEE 1800 clause 11 sizing and signedness, two-state) -- no Verilog simulator exists in the sandbox; it is calibrated by three-way agreement with "
+         "sub-components, heterogeneous interface / component lists, nested interface arrays indexed by expressions, width-preserving casts inside operators, ~125 hand-written statement designs (vt/stmtfam.py) -- are translated by the real VerilogTranslationPass; the text is parsed and simulated for every input vector / sequence and every output port is compared each step; the declared width of every top-level port is compared with the PyMTL port. Nine designs are also translated after the same instance has been simulated: same text as a fresh instance, or refused.",
+         "Trusted base: vt/svparse.py + vt/svsim.py (IEEE 1800 clause 11 sizing and signedness incl. signed integer variables, two-state) -- no Verilog simulator exists in the sandbox; it is calibrated by three-way agreement with "
          "PyMTL and vt/irref.py. Syntactic validity is decided for the emitted subset only.",
          "DESIGN.md 6.C03", "E1 E2 E3"),
  "C12": ("translation_validation",
